@@ -294,3 +294,5 @@ func isASCII(s string) bool {
 func TestC05Strings(t *testing.T) {
 	kit.Check(t, "C05", "TestC05Strings", c05GenStr, c05ExecStr)
 }
+
+func FuzzC05Strings(f *testing.F) { kit.FuzzOf(f, "C05", "TestC05Strings", c05GenStr, c05ExecStr) }
